@@ -21,6 +21,7 @@ import (
 	"runtime"
 	"runtime/debug"
 	"sort"
+	"strconv"
 	"strings"
 )
 
@@ -50,6 +51,11 @@ type G struct {
 	dyOps  int
 	s      *Sched
 	f      func()
+	// Low marks an environment thread (peer script, clock, handler releases):
+	// under the canonical policy it only runs when no program goroutine is
+	// enabled, so the default execution is "every event processed to
+	// quiescence" and letting an event happen earlier is a deviation.
+	Low bool
 
 	// unbuffered-channel rendezvous: the pending op was completed by the partner
 	hand    bool
@@ -60,10 +66,11 @@ type G struct {
 
 // Point is one recorded decision point of an execution.
 type Point struct {
-	N          int  // number of alternatives
-	CurEnabled bool // the running goroutine could have continued (choosing another one is a preemption)
-	Chosen     int  // index taken
-	Kind       byte // 't' thread choice, 's' select-case choice
+	N          int      // number of alternatives
+	CurEnabled bool     // the running goroutine could have continued (choosing another one is a preemption)
+	Chosen     int      // index taken
+	Kind       byte     // 't' thread choice, 's' select-case choice
+	Alts       []string // Debug only: what each alternative was
 }
 
 // Sched is one execution's scheduler state.
@@ -90,10 +97,18 @@ type Sched struct {
 	timers  []*Timer
 	timerID int
 
-	chans   map[uintptr]*chanMeta
+	chans   chanTable
 	chanCap int // >0: cap applied to every MakeChan capacity above it
 
-	inUse map[any]string
+	// The driver (the test's own goroutine) only touches the execution at
+	// quiescence. Under -race that order is told to the detector through these
+	// two addresses: managed goroutines release toDriver whenever they stop and
+	// the driver acquires it when Run returns; the driver releases fromDriver
+	// before Run and goroutines acquire it when they are woken. Only the driver
+	// sits at the other end, so no edge between two managed goroutines arises.
+	toDriver, fromDriver int32
+
+	inUse []inUseEnt // not a map: runtime map operations are visible to the race detector
 }
 
 // S is the current execution. It is nil when the program runs unmanaged
@@ -107,7 +122,7 @@ func New() *Sched {
 	if S != nil {
 		S.Shutdown()
 	}
-	s := &Sched{MaxStep: 20000000, chans: map[uintptr]*chanMeta{}, inUse: map[any]string{}}
+	s := &Sched{MaxStep: 20000000}
 	s.driver = newParker()
 	resetPools()
 	S = s
@@ -166,6 +181,20 @@ func (s *Sched) Spawn(name string, f func()) *G {
 	return g
 }
 
+// SpawnAt creates a managed goroutine whose first scheduling point is op
+// instead of the always-enabled start: it begins to run when op is enabled
+// and chosen, and then performs op's action without a further point.
+//
+//go:norace
+func (s *Sched) SpawnAt(name string, f func(), op Op, low bool) *G {
+	g := s.newG(name)
+	g.op = op
+	g.f = f
+	g.Low = low
+	go g.main()
+	return g
+}
+
 //go:norace
 func (g *G) main() {
 	g.park.wait()
@@ -173,6 +202,7 @@ func (g *G) main() {
 	if g.dying {
 		return
 	}
+	raceAcquire(&g.s.fromDriver)
 	g.op = nil
 	f := g.f
 	g.f = nil
@@ -187,6 +217,7 @@ func (g *G) exit() {
 	}
 	g.done = true
 	g.op = nil
+	raceReleaseMerge(&s.toDriver)
 	dying := g.dying
 	close(g.exited)
 	if dying {
@@ -230,7 +261,7 @@ func caller(skip int) string {
 	if i := strings.LastIndex(file, "/"); i >= 0 {
 		file = file[i+1:]
 	}
-	return fmt.Sprintf("%s:%d", file, line)
+	return file + ":" + strconv.Itoa(line) // not fmt: its internal sync.Pool would order every goroutine that passes here
 }
 
 // enabledList returns the enabled goroutines in canonical order: the running
@@ -238,19 +269,23 @@ func caller(skip int) string {
 //
 //go:norace
 func (s *Sched) enabledList(running *G) []*G {
-	var out []*G
-	if running != nil && running.op != nil && !running.done && (running.hand || running.op.Enabled()) {
+	var out, low []*G
+	if running != nil && !running.Low && running.op != nil && !running.done && (running.hand || running.op.Enabled()) {
 		out = append(out, running)
 	}
 	for _, g := range s.gs {
-		if g == running || g.done || g.op == nil {
+		if (g == running && !g.Low) || g.done || g.op == nil {
 			continue
 		}
 		if g.hand || g.op.Enabled() {
-			out = append(out, g)
+			if g.Low {
+				low = append(low, g)
+			} else {
+				out = append(out, g)
+			}
 		}
 	}
-	return out
+	return append(out, low...)
 }
 
 // choose takes a decision among n alternatives.
@@ -296,6 +331,9 @@ func (s *Sched) dispatch(from *G) bool {
 	}
 	curEn := from != nil && en[0] == from
 	next := en[s.choose(len(en), curEn, 't')]
+	if s.Debug && s.Explore && len(en) > 1 {
+		s.noteAlts(en)
+	}
 	if s.Debug {
 		k := ""
 		if next.op != nil {
@@ -309,6 +347,21 @@ func (s *Sched) dispatch(from *G) bool {
 	s.cur = next
 	next.park.wake()
 	return false
+}
+
+//go:norace
+func (s *Sched) noteAlts(en []*G) {
+	if len(s.Points) == 0 {
+		return
+	}
+	p := &s.Points[len(s.Points)-1]
+	for _, g := range en {
+		k := "?"
+		if g.op != nil {
+			k = g.op.Kind()
+		}
+		p.Alts = append(p.Alts, fmt.Sprintf("g%d(%s):%s", g.ID, g.Name, k))
+	}
 }
 
 // yield publishes op as the caller's next operation and returns when the
@@ -326,6 +379,7 @@ func yield(op Op) {
 		return
 	}
 	g.op = op
+	raceReleaseMerge(&s.toDriver)
 	if s.dispatch(g) {
 		g.op = nil
 		return
@@ -334,6 +388,7 @@ func yield(op Op) {
 	if g.dying {
 		runtime.Goexit()
 	}
+	raceAcquire(&s.fromDriver)
 	g.op = nil
 }
 
@@ -374,12 +429,17 @@ func (s *Sched) Run() {
 	}
 	s.Steps++
 	next := en[s.choose(len(en), false, 't')]
+	if s.Debug && s.Explore && len(en) > 1 {
+		s.noteAlts(en)
+	}
 	if s.Debug {
 		s.Trace = append(s.Trace, fmt.Sprintf("run: g%d(%s)", next.ID, next.Name))
 	}
 	s.cur = next
+	raceReleaseMerge(&s.fromDriver)
 	next.park.wake()
 	s.driver.wait()
+	raceAcquire(&s.toDriver)
 }
 
 // Quiescent reports whether no managed goroutine is enabled.
@@ -452,18 +512,40 @@ func (s *Sched) Shutdown() {
 // running handler; vsync.Pool reports a Put of such an object.
 //
 //go:norace
-func (s *Sched) MarkInUse(obj any, who string) { s.inUse[obj] = who }
+func (s *Sched) MarkInUse(obj any, who string) {
+	s.MarkDone(obj)
+	s.inUse = append(s.inUse, inUseEnt{obj, who})
+}
+
+type inUseEnt struct {
+	obj any
+	who string
+}
 
 //go:norace
-func (s *Sched) MarkDone(obj any) { delete(s.inUse, obj) }
+func (s *Sched) MarkDone(obj any) {
+	for i := range s.inUse {
+		if s.inUse[i].obj == obj {
+			for j := i; j+1 < len(s.inUse); j++ {
+				s.inUse[j] = s.inUse[j+1]
+			}
+			s.inUse = s.inUse[:len(s.inUse)-1]
+			return
+		}
+	}
+}
 
 //go:norace
 func InUse(obj any) (string, bool) {
 	if S == nil {
 		return "", false
 	}
-	w, ok := S.inUse[obj]
-	return w, ok
+	for i := range S.inUse {
+		if S.inUse[i].obj == obj {
+			return S.inUse[i].who, true
+		}
+	}
+	return "", false
 }
 
 // Always returns an always-enabled op with the given name (for shims).
